@@ -509,6 +509,8 @@ def run(F, rep, tier):
     ret_fold(F, rep)
     binder_typed(F, rep)
     type_names_are_not_values(F, rep)
+    import c07
+    c07.guard_discipline(F, rep)
     tc.dropped_results(F, rep, "DROPPED-ERROR", ["sylt_compiler::typechecker::", "sylt_compiler::name_resolution::", "sylt_compiler::dependency::"])
 
 
